@@ -13,6 +13,7 @@ import torch
 
 from vf.common import Obs, sub_seed, HarnessBug, WarnLog
 from vf import gen
+from vf import c18_extra as cx
 
 LEVEL = "exploration"
 TECHNIQUE = ("runtime call-history spy on caller-supplied method callables (arguments, options, grad mode) + reference-model monitor "
@@ -30,9 +31,13 @@ LEVEL_NOTE = ("Closed-form callables for solve_ivp / quad cannot integrate the a
 RULE = ("case = (functional, variant {closed, wrap, names, bad}, size/seed, option dictionary); non-trivial = the spy fired at least once "
         "(custom variants) and at least one second-order gradient was compared, or (name variants) at least two spellings were executed")
 RULE += ('; group special: unknown name with an all-zero right-hand side, closed-form callable returning one of its input objects, method entry in bck_options for every functional; a wrap callable reaching another solution than the built-in is a violation')
+RULE += ("; kinds bck_strict_opts (strict-signature recording callable as bck_options['method'] of all 9 functionals together with its own options and, "
+         "for symeig / svd, degen_atol / degen_rtol: every call of it in the first-order backward and in the nested second-order solves received exactly "
+         "the caller's options for it, gradients equal the built-in reference) and returns_input_leaf (a callable returning one of its input tensors, on "
+         "leaves with a non-vanishing derivative: solve on an identity leaf with / without E, quad, symeig, solve_ivp)")
 MIN_NONTRIVIAL = {"quick": 200, "thorough": 1200}
-REQUIRED_COUNTERS = {"quick": {"bck_callable_orders_checked": 8, "nested_backward_solves_observed": 10, "unhashable_callable_checked": 15, "bck_unknown_name_rejected": 10, "returns_input_compared": 6, "custom_calls_observed": 150, "names_compared": 100, "second_order_compared": 150},
-                     "thorough": {"bck_callable_orders_checked": 60, "nested_backward_solves_observed": 60, "unhashable_callable_checked": 100, "bck_unknown_name_rejected": 80, "returns_input_compared": 40, "custom_calls_observed": 900, "names_compared": 600, "second_order_compared": 900}}
+REQUIRED_COUNTERS = {"quick": {"bck_strict_checked": 40, "bck_strict_alg_options_mixed": 6, "bck_strict_first_calls": 40, "bck_strict_nested_calls": 60, "bck_strict_nested_solves_observed": 30, "returns_input_leaf_compared": 8, "bck_callable_orders_checked": 8, "nested_backward_solves_observed": 10, "unhashable_callable_checked": 15, "bck_unknown_name_rejected": 10, "returns_input_compared": 6, "custom_calls_observed": 150, "names_compared": 100, "second_order_compared": 150},
+                     "thorough": {"bck_strict_checked": 200, "bck_strict_alg_options_mixed": 30, "bck_strict_first_calls": 200, "bck_strict_nested_calls": 400, "bck_strict_nested_solves_observed": 150, "returns_input_leaf_compared": 40, "bck_callable_orders_checked": 60, "nested_backward_solves_observed": 60, "unhashable_callable_checked": 100, "bck_unknown_name_rejected": 80, "returns_input_compared": 40, "custom_calls_observed": 900, "names_compared": 600, "second_order_compared": 900}}
 ASSUMPTIONS = ["well-conditioned problems (cond <= 10, contraction <= 0.5, SPD ODE matrices), float64",
                "gradient tolerance 1e-6 relative (1e-5 for solve_ivp / davidson): built-ins run with tolerances 1e-10..1e-12"]
 BUDGET = {"quick": {"worker_timeout": 900, "case_timeout": 240}, "thorough": {"worker_timeout": 3300, "case_timeout": 400}}
@@ -545,6 +550,9 @@ def cases(seed, tier):
         for r in range(6 if tier == "quick" else 30):
             out.append({"group": "classes", "functional": cls, "seed": sub_seed(seed, "c18s", k)})
             k += 1
+    # strict-signature recording backward methods with the functional's own backward options in the same dictionary; callables whose answer is
+    # one of their inputs on leaves with a non-vanishing derivative (vf/c18_extra.py)
+    out += cx.extra_cases(seed, tier, sub_seed, list(PROBLEMS))
     return out
 
 
@@ -723,6 +731,10 @@ BCK_METHOD_KEY = {"solve": "exactsolve", "symeig": "exactsolve", "svd": "exactso
 
 def run_special(desc, obs):
     kind, name = desc["kind"], desc["functional"]
+    if kind == "bck_strict_opts":
+        return cx.run_bck_strict(desc, obs, PROBLEMS)
+    if kind == "returns_input_leaf":
+        return cx.run_returns_input_leaf(desc, obs, PROBLEMS)
     P = PROBLEMS[name](desc["seed"], desc["n"])
     mech = "%s:%s" % (kind, name)
     if kind == "unknown_zero_rhs":
